@@ -64,15 +64,16 @@ type c11ELedger struct {
 }
 
 type c11EMachine struct {
-	m       *vMachine
-	t       rec.TB
-	r       *rec.Rec
-	cs      *c11ECase
-	ledgers map[uint64]*c11ELedger
-	closed  int
-	multi   int // auctions closed after at least two accepted bids
-	edge    int // bids accepted exactly at the minimum increment
-	rejEdge int // bids rejected one unit short of it
+	m             *vMachine
+	t             rec.TB
+	r             *rec.Rec
+	cs            *c11ECase
+	ledgers       map[uint64]*c11ELedger
+	closed        int
+	closedSurplus int
+	multi         int // auctions closed after at least two accepted bids
+	edge          int // bids accepted exactly at the minimum increment
+	rejEdge       int // bids rejected one unit short of it
 }
 
 // collectorDenom is the denomination of the collector the auction was started for.
@@ -175,6 +176,9 @@ func (e *c11EMachine) sync(i int, balBefore map[string]sdk.Int) {
 		// the auction is gone: it was closed in the block that just began
 		delete(e.ledgers, id)
 		e.closed++
+		if l.kind == "surplus" {
+			e.closedSurplus++
+		}
 		if l.nBids >= 2 {
 			e.multi++
 		}
@@ -366,12 +370,12 @@ func (e *c11EMachine) apply(i int, op c11EOp) {
 					e.fail("C13.net-fees-follow-custody", what, "step %d: in this block the collector's custody of %s changed by %s, the recorded net fees by %s", i, d, dc, dn)
 				}
 			}
-			if e.closed == 0 {
+			if e.closedSurplus == 0 {
 				e.m.c13Invariants(i, vOp{K: "block"})
 			} else {
-				// every close of a surplus or debt auction distorts the books (known findings C13-F1 / C13-F2): from the
-				// first close on, "custody backs the recorded net fees" would only restate them
-				e.r.Class("collector-custody-not-compared-after-an-english-close")
+				// every close of a surplus auction distorts the books (known finding C13-F1): from the first one on,
+				// "custody backs the recorded net fees" would only restate it
+				e.r.Class("collector-custody-not-compared-after-a-surplus-close")
 			}
 		}
 	case "bid":
